@@ -120,6 +120,16 @@ extern "C" void h_transpose(void)
   }
   REACHABLE("h_transpose");
 }
+extern "C" void h_conjugate(void)
+{
+  field_init(); CSRMatrix M, Cj; any_canonical(M, NR, NC);
+  verif_may_throw = false;
+  M.conjugate(Cj);
+  OBL("C25.conjugate.post.same_shape", Cj.row_ == NR && Cj.col_ == NC);
+  OBL("C25.conjugate.post.result_is_canonical", Cj.is_canonical());
+  if (Cj.row_ == NR && Cj.col_ == NC && Cj.p_.n == NR + 1) FORALL_RC(i, j) OBL("C25.conjugate.post.entries_are_the_conjugates", dense_at(Cj, i, j) == dense_at(M, i, j));      /* real entries: conjugate = identity */
+  REACHABLE("h_conjugate");
+}
 extern "C" void h_diagonal(void)
 {
   field_init(); CSRMatrix M; any_canonical(M, NR, NC);
